@@ -45,6 +45,8 @@ structure Invoke where
   finalize : Nat
   /-- the `id` attribute (`[]` = absent: the id is generated from `idlocation`'s counter) -/
   id : Str := []
+  /-- the `namelist` attribute (locations whose values the child receives) -/
+  nameList : List Str := []
   deriving Repr, DecidableEq, Inhabited
 
 structure State where
